@@ -60,3 +60,12 @@ cdef datetime_from_timestamp(double timestamp):
     microseconds += <int>tmp
 
     return DATETIME_EPOC + timedelta_new(days, seconds, microseconds)
+
+
+cdef datetime_from_ms_timestamp(int64_t timestamp):
+    # whole numbers throughout: days, seconds and microseconds of a millisecond count (floor division, also before 1970)
+    cdef int64_t days = timestamp // 86400000
+    cdef int64_t ms_left = timestamp - days * 86400000
+    if days > 999999999 or days < -999999999:
+        raise OverflowError("date value out of range")
+    return DATETIME_EPOC + timedelta_new(<int> days, <int> (ms_left // 1000), <int> ((ms_left % 1000) * 1000))
